@@ -121,7 +121,14 @@ CONFIGS = {
     "lo4_alias": [["transparent", [["127.0.0.5", 8080]]]],
     # listen_host is a name that resolves to two addresses: one server instance, two explicit sockets
     "dual_explicit": [["regular", [["2001:db8::5", 8080], ["192.168.1.5", 8080]]]],
+    "lo4_two": [["regular", [["127.0.0.1", 8080]]], ["socks5", [["127.0.0.1", 8081]]]],
 }
+# runtime reconfigurations (from, to): a server added, the only server replaced, one replaced by two
+RECONF = {"add_server": ("lo4", "lo4_two"), "replace_all_by_ip4": ("all", "ip4"), "ip4_to_two": ("ip4", "two")}
+RECONF_THOROUGH = dict(RECONF, **{"lo6_to_dns": ("lo6", "dns_lo4"), "drop_server": ("lo4_two", "lo4"),
+                                  "wg_to_all": ("wg_any4", "all")})
+RE_HOSTS = ("localhost", "::1", "0.0.0.0", "192.168.1.5", "example.com")
+RE_PORTS = (8080, 8081)
 CONFIGS_THOROUGH = dict(CONFIGS, **{
     "all_dns": [["dns", [["::", 8080], ["0.0.0.0", 8080]]]],
     "rev_udp_ip4": [["reverse:udp://up.example:9", [["10.1.2.3", 8080]]]],
@@ -136,8 +143,25 @@ DESTS_THOROUGH = DESTS + ["LocalHost", "LOCALHOST.", "127.255.255.254", "127.0.0
 PORTS = (8080, 8081, 9090)
 
 
-def run_opens(config, opens):
-    """Listening configuration + a sequence of upstream connection requests through the real open_connection."""
+def spec_of(entry) -> str:
+    """The mode option value that makes mitmproxy create the server of a configuration entry [mode, addrs]."""
+    mode, addrs = entry
+    if len(addrs) > 1:
+        return f"{mode}@{addrs[0][1]}"  # no listen host: all interfaces (two sockets)
+    host, port = addrs[0]
+    return f"{mode}@[{host}]:{port}" if ":" in host else f"{mode}@{host}:{port}"
+
+
+def kept_entries(old, new):
+    """Entries of `new` whose server already exists in `old` (same mode spec): they keep listening during the update."""
+    have = {spec_of(e) for e in old}
+    return [e for e in new if spec_of(e) in have]
+
+
+def run_ops(config, ops):
+    """A running proxy (real Proxyserver, real Servers.update with stub server instances), upstream connection requests
+    through the real open_connection, and runtime reconfigurations through the real Proxyserver.configure.
+    ops: ["open", host, port, tp] | ["configure", new_config] | ["update_begin"] | ["update_done"]."""
     import asyncio
 
     import mitmproxy_rs
@@ -145,11 +169,13 @@ def run_opens(config, opens):
 
     from mitmproxy import connection
     from mitmproxy import ctx as mctx
+    from mitmproxy import exceptions
     from mitmproxy.addons import proxyserver
     from mitmproxy.proxy import commands, events, layer, mode_servers
     from mitmproxy.proxy.mode_specs import ProxyMode
 
-    trace: list[dict] = [{"k": "listen", "socks": socks_of(config)}]
+    trace: list[dict] = []
+    entry_of: dict[str, list] = {}  # full mode spec -> configuration entry (what the stub instance will listen on)
 
     class Writer:
         def get_extra_info(self, name, default=None):
@@ -161,25 +187,35 @@ def run_opens(config, opens):
         def close(self):
             pass
 
-    class Instance:  # stands for a started ServerInstance: the guard reads .mode.transport_protocol and .listen_addrs
-        def __init__(self, mode, addrs):
-            self.mode = ProxyMode.parse(mode)
+    state = {"gate": None}
+
+    class Instance:
+        """Stands for a ServerInstance: start() binds (when the scenario lets it), stop() closes at once; the guard reads
+        .mode.transport_protocol and .listen_addrs (as getsockname() reports them)."""
+        last_exception = None
+
+        def __init__(self, mode, manager):
+            self.mode, self.manager, self.listen_addrs = mode, manager, ()
+
+        @property
+        def is_running(self):
+            return bool(self.listen_addrs)
+
+        async def start(self):
+            await state["gate"].wait()
+            _mode, addrs = entry_of[self.mode.full_spec]
             self.listen_addrs = tuple((h, p, 0, 0) if ":" in h else (h, p) for h, p in addrs)
+
+        async def stop(self):
+            self.listen_addrs = ()
 
     opts = sansio.make_options()
     mctx.options = opts
-    ps = proxyserver.Proxyserver()
-    ps.servers._instances = {}
-    for i, (mode, addrs) in enumerate(config):
-        inst = Instance(mode, addrs)
-        ps.servers._instances[(i, inst.mode)] = inst
-
-    def err_class(e):
-        if not e:
-            return "none"
-        return "destination_unknown" if "destination unknown" in str(e).lower() else "other"
 
     class Addons:
+        def get(self, name):
+            return object()
+
         async def handle_lifecycle(self, hook):
             if hook.name == "server_connect":
                 (data,) = hook.args()
@@ -192,36 +228,98 @@ def run_opens(config, opens):
     class Master:
         addons = Addons()
 
+    mctx.master = Master()
+    ps = proxyserver.Proxyserver()
+
+    def err_class(e):
+        if not e:
+            return "none"
+        return "destination_unknown" if "destination unknown" in str(e).lower() else "other"
+
+    def listening():
+        """The sockets that are listening now, read from the live server instances."""
+        out = []
+        for inst in ps.servers:
+            if inst.listen_addrs:
+                out += socks_of([entry_of[inst.mode.full_spec]])
+        return out
+
+    def set_modes(cfg):
+        for e in cfg:
+            entry_of[ProxyMode.parse(spec_of(e)).full_spec] = e
+        opts.update(mode=[spec_of(e) for e in cfg])
+        try:
+            ps.configure({"mode"})
+            return True
+        except exceptions.OptionsError as e:
+            trace.append({"k": "configure_rejected", "exc": type(e).__name__})
+            return False
+
     async def fake_open(*a, **kw):
         trace.append({"k": "connect"})
         raise OSError("connection refused (harness)")
 
     async def main(loop):
-        h = mode_servers.ProxyConnectionHandler(Master(), None, Writer(), opts, ProxyMode.parse(config[0][0]))
-
-        class Rec(layer.Layer):
-            def _handle_event(self, event):
-                if isinstance(event, events.OpenConnectionCompleted):
-                    trace.append({"k": "completed", "err": err_class(event.reply)})
-                yield from ()
-
-        h.layer = Rec(h.layer.context)
+        real_make = mode_servers.ServerInstance.__dict__["make"]
+        mode_servers.ServerInstance.make = classmethod(
+            lambda cls, mode, manager: Instance(ProxyMode.parse(mode) if isinstance(mode, str) else mode, manager))
         real_tcp, real_udp = asyncio.open_connection, mitmproxy_rs.udp.open_udp_connection
         asyncio.open_connection = fake_open
         mitmproxy_rs.udp.open_udp_connection = fake_open
         try:
-            for host, port, tp in opens:
-                dk, ip = dest_kind(host)
-                trace.append({"k": "open", "dk": dk, "port": port, "tp": tp, "ip": ip, "host": host})
-                srv = connection.Server(address=(host, port), transport_protocol=tp)
-                try:
-                    await h.open_connection(commands.OpenConnection(srv))
-                except Exception as e:  # noqa: BLE001
-                    trace.append({"k": "handler_raised", "exc": type(e).__name__})
-                await vloop.settle()
+            # start-up: the servers of the first configuration come up
+            state["gate"] = asyncio.Event()
+            state["gate"].set()
+            ps.is_running = True
+            set_modes(config)
+            await vloop.settle()
+            trace.append({"k": "listen", "socks": listening()})
+            state["gate"] = asyncio.Event()
+            h = mode_servers.ProxyConnectionHandler(Master(), None, Writer(), opts, ProxyMode.parse(config[0][0]))
+
+            class Rec(layer.Layer):
+                def _handle_event(self, event):
+                    if isinstance(event, events.OpenConnectionCompleted):
+                        trace.append({"k": "completed", "err": err_class(event.reply)})
+                    yield from ()
+
+            h.layer = Rec(h.layer.context)
+            phase = "none"
+            for op in ops:
+                if op[0] == "open":
+                    _o, host, port, tp = op
+                    dk, ip = dest_kind(host)
+                    trace.append({"k": "open", "dk": dk, "port": port, "tp": tp, "ip": ip, "host": host})
+                    srv = connection.Server(address=(host, port), transport_protocol=tp)
+                    try:
+                        # no await suspends before the hook: an update task scheduled by configure() has not run yet
+                        await h.open_connection(commands.OpenConnection(srv))
+                    except Exception as e:  # noqa: BLE001
+                        trace.append({"k": "handler_raised", "exc": type(e).__name__})
+                elif op[0] == "configure":
+                    if phase in ("scheduled", "running"):
+                        break  # not enabled: an update is still in progress
+                    if set_modes(op[1]):
+                        trace.append({"k": "configure"})
+                        phase = "scheduled"
+                elif op[0] == "update_begin":
+                    if phase != "scheduled":
+                        break
+                    await vloop.settle()  # the task runs up to the point where the new servers wait to start
+                    trace.append({"k": "listen", "socks": listening()})
+                    phase = "running"
+                elif op[0] == "update_done":
+                    if phase != "running":
+                        break
+                    state["gate"].set()
+                    await vloop.settle()
+                    state["gate"] = asyncio.Event()
+                    trace.append({"k": "listen", "socks": listening()})
+                    phase = "done"
         finally:
             asyncio.open_connection = real_tcp
             mitmproxy_rs.udp.open_udp_connection = real_udp
+            mode_servers.ServerInstance.make = real_make
         trace.append({"k": "end"})
 
     vloop.run(main)
@@ -234,8 +332,11 @@ class Check(core.PropertyCheck):
     MODEL = "SelfConnect"
     MON = "Mon_SelfConnect"
     REQUIRED_WITNESSES = ("self_refused", "self_refused_localhost", "self_refused_lo4", "self_refused_lo6",
-                          "other_let_through", "connect_attempted", "self_refused_wildcard_explicit_listener")
-    REQUIRED_ACTIONS = ("Listen", "Open", "ConnectHook", "Refuse", "Connect", "Finish")
+                          "other_let_through", "connect_attempted", "self_refused_wildcard_explicit_listener",
+                          "open_between_configure_and_update", "open_while_servers_start",
+                          "self_refused_listener_added_at_runtime")
+    REQUIRED_ACTIONS = ("Listen", "Open", "ConnectHook", "Refuse", "Connect", "Finish", "Configure", "UpdateBegin",
+                        "UpdateDone")
     ASSUMPTIONS = (
         "what a destination text denotes is decided by the harness's parser (props/C23.py denote/dest_kind): names are "
         "compared to 'localhost' ignoring case and trailing dots, addresses numerically; no DNS resolution, so other "
@@ -260,10 +361,18 @@ class Check(core.PropertyCheck):
     def _configs(self, tier):
         return CONFIGS if tier == "quick" else CONFIGS_THOROUGH
 
+    def _reconf(self, tier):
+        cfgs = self._configs(tier)
+        out = {}
+        for name, (a, b) in (RECONF if tier == "quick" else RECONF_THOROUGH).items():
+            out[name] = {"from": a, "to": b, "kept": tuple(socks_of(kept_entries(cfgs[a], cfgs[b])))}
+        return out
+
     def model_constants(self, tier):
         cfgs = {name: tuple(socks_of(c)) for name, c in self._configs(tier).items()}
         return {"Configs": cfgs, "Dests": frozenset(core.tlaval.FrozenDict(d) for d in self._dests(tier)),
-                "Ports": frozenset(PORTS), "Guard": "parsed"}
+                "Ports": frozenset(PORTS), "Guard": "parsed", "Reconf": self._reconf(tier),
+                "ReHosts": frozenset(RE_HOSTS), "RePorts": frozenset(RE_PORTS), "CacheSockets": False}
 
     def model_runs(self, ctx):
         runs = [ctx.model_check(self.MODEL, self.model_constants(ctx.tier), dump=True)]
@@ -279,21 +388,48 @@ class Check(core.PropertyCheck):
             if not any(b and b[0] == "C23.self_connect_not_refused" for b in r.bad):
                 raise core.MachineryError("C23: the textual guard (code before the fix) is not rejected by the monitor")
             ctx.notes["design_text_guard_rejected"] = {"states": r.states, "bad_signatures": len(r.bad)}
+            r = ctx.model_check(self.MODEL, self.model_constants("quick") | {"CacheSockets": True}, dump=False, tag="_cache")
+            if not any(b and b[0] == "C23.self_connect_not_refused" for b in r.bad):
+                raise core.MachineryError("C23: a socket-list cache invalidated in configure() is not rejected by the monitor")
+            ctx.notes["design_socket_cache_rejected"] = {"states": r.states, "bad_signatures": len(r.bad)}
         return runs
 
     def scenarios(self, ctx, models):
         cfgs = self._configs(ctx.tier)
+        reconf = RECONF if ctx.quick else RECONF_THOROUGH
         g = models[0].graph
-        for b in g.edge_cover(ctx.rng, max_len=8, tail=6):
-            steps = [(n, a) for n, a, _s in b[1:]]
-            if len(steps) < 2 or steps[0][0] != "Listen" or steps[1][0] != "Open":
+        closers = ("Refuse", "Connect", "Configure", "UpdateBegin", "UpdateDone", "Finish")
+        seen = set()
+        for b in g.edge_cover(ctx.rng, max_len=24, tail=12):
+            last = max((i for i, st in enumerate(b) if st[0] in closers), default=0)
+            stopped = bool(b[-1][2].get("mon", {}).get("bad"))  # the monitor stopped the behaviour in the model
+            if not stopped:
+                b = b[: last + 1]
+            if len(b) < 3 or b[1][0] != "Listen":
                 continue
-            pred = core.predicted_events(b)
-            d, port, tp = steps[1][1]
-            # a behaviour the monitor stops (the model of the code as it is violates the property) has no predicted
-            # continuation: it is executed all the same, without drift comparison
-            yield core.Scenario({"config": cfgs[steps[0][1][0]], "opens": [[d["host"], port, tp]]},
-                                predicted=pred if pred[-1].get("k") == "end" else None, source="model")
+            ops = []
+            for name, args, _st in b[2:]:
+                if name == "Open":
+                    ops.append(["open", args[0]["host"], args[1], args[2]])
+                elif name == "Configure":
+                    ops.append(["configure", cfgs[reconf[args[0]][1]]])
+                elif name == "UpdateBegin":
+                    ops.append(["update_begin"])
+                elif name == "UpdateDone":
+                    ops.append(["update_done"])
+            if not ops:
+                continue
+            pred = None
+            if not stopped:
+                pred = core.predicted_events(b)
+                if b[-1][0] != "Finish":
+                    pred = pred + [{"k": "end"}]  # the harness closes every trace with "end"
+            sc = {"config": cfgs[b[1][1][0]], "ops": ops}
+            key = repr(sc)
+            if key in seen:
+                continue
+            seen.add(key)
+            yield core.Scenario(sc, predicted=pred, source="model")
         # beyond the model: random spellings, several requests per connection handler, random configurations
         rng = random.Random(ctx.seed + 23)
         modes = list(MODE_TRANSPORT)
@@ -321,19 +457,46 @@ class Check(core.PropertyCheck):
             return rng.choice(["example.com", "localhost.example.com", "10.0.0.1", "2001:db8::6", "mitm.it",
                                _fmt4(rng.getrandbits(32))])
 
-        for _ in range(250 if ctx.quick else 6000):
-            config = []
+        def rand_config():
+            cfg, ports = [], set()
             for _i in range(rng.choice((1, 1, 2, 3))):
-                addrs = [[rng.choice(listen_hosts), rng.choice(PORTS[:2])]]
+                addrs = [[rng.choice(listen_hosts), rng.choice(PORTS[:2] + (9091, 9092))]]
                 if addrs[0][0] == "::" and rng.random() < 0.7:
                     addrs.append(["0.0.0.0", addrs[0][1]])
-                config.append([rng.choice(modes), addrs])
-            opens = [[rand_host(), rng.choice(PORTS), rng.choice(("tcp", "udp"))] for _j in range(rng.randint(1, 4))]
-            yield core.Scenario({"config": config, "opens": opens}, source="random")
+                if addrs[0][1] in ports:
+                    continue  # configure() refuses two servers on one address; keep the ports of a configuration distinct
+                ports.add(addrs[0][1])
+                cfg.append([rng.choice(modes), addrs])
+            return cfg
+
+        def rand_opens(k, ports):
+            return [["open", rand_host(), rng.choice(ports), rng.choice(("tcp", "udp"))] for _j in range(k)]
+
+        for _ in range(250 if ctx.quick else 6000):
+            cfg = rand_config()
+            if rng.random() < 0.5:
+                yield core.Scenario({"config": cfg, "ops": rand_opens(rng.randint(1, 4), PORTS)}, source="random")
+                continue
+            # runtime reconfigurations beyond the model: random old/new configurations, requests in every window,
+            # possibly two reconfigurations in a row
+            first, ops = cfg, []
+            for _r in range(rng.choice((1, 1, 2))):
+                new = rand_config()
+                if rng.random() < 0.4:  # keep some servers of the old configuration
+                    keep = cfg[: rng.randint(0, len(cfg))]
+                    kp = {e[1][0][1] for e in keep}
+                    new = keep + [e for e in new if e[1][0][1] not in kp]
+                ports = tuple({e[1][0][1] for e in cfg + new}) + (9090,)
+                ops += rand_opens(rng.randint(0, 2), ports) + [["configure", new]] + rand_opens(rng.randint(0, 2), ports)
+                ops += [["update_begin"]] + rand_opens(rng.randint(0, 2), ports) + [["update_done"]]
+                ops += rand_opens(rng.randint(1, 3), ports)
+                cfg = new
+            yield core.Scenario({"config": first, "ops": ops}, source="random")
 
     def setup(self, ctx):
         logging.disable(logging.CRITICAL)
 
     def execute(self, sc):
         logging.disable(logging.CRITICAL)
-        return run_opens(sc["config"], [tuple(o) for o in sc["opens"]])
+        ops = sc["ops"] if "ops" in sc else [["open", *o] for o in sc["opens"]]
+        return run_ops(sc["config"], ops)
